@@ -97,7 +97,7 @@ def full_range(ty):
 # ------------------------------------------------------------------------------ state
 
 class Frame:
-    __slots__ = ("body", "bb", "si", "uid", "dest", "target", "callsite", "on_return")
+    __slots__ = ("body", "bb", "si", "uid", "dest", "target", "callsite", "on_return", "gargs")
 
     def __init__(self, body, uid, dest=None, target=None, callsite=None, on_return=None):
         self.body = body
@@ -108,10 +108,12 @@ class Frame:
         self.target = target      # caller bb to continue at
         self.callsite = callsite
         self.on_return = on_return  # optional continuation: fn(interp, st, tree) -> list of states or None
+        self.gargs = ()
 
     def clone(self):
         f = Frame(self.body, self.uid, self.dest, self.target, self.callsite, self.on_return)
         f.bb, f.si = self.bb, self.si
+        f.gargs = self.gargs
         return f
 
 
@@ -1242,7 +1244,10 @@ class Interp:
                 return r
             if body.short in self.summarize:
                 return self.apply_summary(call, body)
-            return self.enter(st, fr, body, args, dest, t["target"])
+            r = self.enter(st, fr, body, args, dest, t["target"])
+            if r is None:
+                st.frames[-1].gargs = tuple(ce.get("resolved_args") or ce.get("args") or ())
+            return r
         return self.default_foreign(call)
 
     def apply_summary(self, call, body):
